@@ -735,7 +735,7 @@ func sentinelLost(kind, outs string) bool {
 
 func runNet1(j job) (string, bool) {
 	switch j.kind {
-	case "srv.ip", "srv.scion", "srv.scionnts", "srv.scionauth", "srv.csptp", "srv.ntske", "srv.kestall", "srv.quic", "srv.quicke", "cli.scionnts", "cli.overlap", "cli.ipopt", "cli.ip", "cli.nts", "cli.scion", "cli.csptp":
+	case "srv.ip", "srv.scion", "srv.scionnts", "srv.scionauth", "srv.csptp", "srv.ntske", "srv.kestall", "srv.quic", "srv.quicke", "cli.scionnts", "cli.overlap", "cli.ipopt", "cli.kestall", "srv.scionnodaemon", "cli.ip", "cli.nts", "cli.scion", "cli.csptp":
 	default:
 		return "", false
 	}
@@ -748,6 +748,8 @@ func runNet1(j job) (string, bool) {
 		return e.runSCION(a), true
 	case "srv.quicke":
 		return e.runQUICKE(a), true
+	case "srv.scionnodaemon":
+		return e.runNoDaemon(a), true
 	case "srv.csptp":
 		return e.runCSPTPServer(a), true
 	case "srv.ntske":
